@@ -14,6 +14,6 @@ case "$patch" in
 esac
 cd /verif
 if [ ! -x bin/gsa ] || [ -n "$(find sa -name '*.go' -newer bin/gsa 2>/dev/null | head -1)" ]; then
-  (cd sa && env -u GOTOOLCHAIN -u GOSUMDB GOFLAGS=-mod=mod GOPROXY=off GOWORK=off go build -o ../bin/gsa.new ./cmd/gsa && mv ../bin/gsa.new ../bin/gsa) || { echo "gsa: build failed"; exit 3; }
+  (cd sa && env -u GOTOOLCHAIN -u GOSUMDB GOFLAGS=-mod=mod GOPROXY=off GOWORK=off go build -o ../bin/gsa.new.$$ ./cmd/gsa && mv ../bin/gsa.new.$$ ../bin/gsa) || { echo "gsa: build failed"; exit 3; }
 fi
 GSA_REPO="$d" ./bin/gsa check "$id" --tier "$tier"
